@@ -174,6 +174,8 @@ def snp_events(run, tier, seed, tag, ks=None, n=None):
             names = ["m%d_%d" % (ci, i) for i in range(ns)]
             sb.reset()
             missing = rng.choice([None, 0.0, 0.1, 0.15, 0.2, 0.4])
+            if ci % 2 == 0:
+                missing = 0.4           # generous, so that the ambiguous carriers alone do not rule the column out
             r = run_lo(sb, samples, names, k, "m%d" % ci, threads=rng.choice([1, 2, 4]), missing=missing)
             if r.get("err", "").startswith("build failed"):
                 continue
